@@ -1,6 +1,6 @@
 (* History machine: a pool of aggregators and the operations a program applies to it. *)
 From Coq Require Import ZArith List String Bool.
-From Hgm Require Import NumOps Agg Ops Snap.
+From Hgm Require Import NumOps Agg Ops Snap Json.
 Import ListNotations.
 Local Open Scope Z_scope.
 
@@ -18,6 +18,9 @@ Section Run.
   | OZero (i : nat)
   | OCopy (i : nat)
   | OHash (i : nat)            (* hash(pool[i]) must not raise *)
+  | OToJson (i : nat)          (* observe h.toJson() *)
+  | OFromJson (j : json N)     (* Factory.fromJson(document): push the container or raise *)
+  | OJsonRT (i : nat)          (* push Factory.fromJson(pool[i].toJson()) *)
   | OSnapAll.
 
   Definition dummy : agg := Leaf (LCount TId) no_quantity (leaf_zero (LCount TId)).
@@ -56,6 +59,17 @@ Section Run.
     | OZero i => let c := zero (get p i) in (p ++ [c], 0 :: snap c)
     | OCopy i => let c := copy (get p i) in (p ++ [c], 0 :: snap c)
     | OHash i => (p, [if hashable (get p i) then 0 else 1])
+    | OToJson i => (p, tok_json (to_json (get p i)))
+    | OFromJson j =>
+        match from_json 64 j with
+        | Ok c => (p ++ [c], 0 :: tok_json (to_json c))
+        | Err => (p ++ [dummy], [1])
+        end
+    | OJsonRT i =>
+        match from_json 64 (to_json (get p i)) with
+        | Ok c => (p ++ [c], 0 :: snap c)
+        | Err => (p ++ [dummy], [1])
+        end
     | OSnapAll => (p, List.concat (map (fun a => 7777 :: snap a) p))
     end.
 
